@@ -14,7 +14,7 @@ import ast
 import json
 from pathlib import Path
 
-from ..core import AnalysisError, Program
+from ..core import AnalysisError, Program, src
 from ..report import Collector
 from ..terms import is_call_to, is_global, show, subterms
 from .common import fterms, short
@@ -178,6 +178,28 @@ def rule_dtypes(prog: Program, col: Collector) -> None:
                     bad += 1
                     col.violation(ref.where(e.node), ref.short, f"narrow-dtype:{show(c)}", f"narrow dtype {show(c)} in {short(e.term, 60)}",
                                   "ids, player numbers and their powers of two overflow 8/16-bit integers silently (2**7 wraps in int8): tables become wrong from a certain size on")
+        # a buffer filled with an INTEGER literal (np.full(k, 0), np.zeros(k, dtype=int)) that later receives values read from a game
+        def int_buffer(t) -> bool:
+            if is_call_to(t, "numpy.full") and len(t[2]) >= 2 and "dtype" not in dict(t[3]):
+                return t[2][1][0] == "const" and type(t[2][1][1]) is int
+            if is_call_to(t, "numpy.zeros", "numpy.ones", "numpy.empty"):
+                d = dict(t[3]).get("dtype", t[2][1] if len(t[2]) > 1 else None)
+                return d is not None and (d == ("global", "int") or "int" in show(d).lower()) and "Value" not in show(d)
+            return False
+
+        def game_value(t) -> bool:
+            return any(s[0] == "call" and s[1][0] == "attr" and s[1][2] in ("get_values", "get_value", "get_lower_bounds", "get_upper_bounds", "get_known_values",
+                                                                           "get_lower_bound", "get_upper_bound", "get_intervals")
+                       for s in subterms(t))
+        for e in list(ft.of_kind("aug")) + list(ft.of_kind("store")):
+            base = e.target if e.kind == "aug" else e.obj
+            while isinstance(base, tuple) and base[0] == "index":
+                base = base[1]
+            if e.index is not None and isinstance(base, tuple) and int_buffer(base) and isinstance(e.value, tuple) and game_value(e.value):
+                bad += 1
+                col.violation(ref.where(e.node), ref.short, "int-buffer-literal",
+                              f"values of a game are accumulated in {short(base, 40)}, an integer array (integer fill value / dtype)",
+                              "game values are floats: every `buf[i] += v` truncates toward zero without a warning - exact for integer games, wrong for every fractional one")
     if n == 0:
         raise AnalysisError("DT: no function found in the anchor files")
     if bad == 0:
@@ -397,3 +419,154 @@ def rule_truthiness_defaults(prog: Program, col: Collector) -> None:
                                   "0 is a legal value of an integer option: `if not limit` / `if seed` confuse it with None")
     if bad == 0:
         col.ok("-", "scope", f"no truthiness test or `or`-default on the integer options {sorted(fields)[:6]}... or on int | None parameters")
+
+
+def _own_column_ops(tree: ast.AST) -> list[ast.AST]:
+    """`X op X[:, j]` / `X op= X[:, j]` (arithmetic between a 2-D array and ONE OF ITS OWN COLUMNS without a new axis)."""
+    hits = []
+    for n in ast.walk(tree):
+        pairs = []
+        if isinstance(n, ast.BinOp) and isinstance(n.op, (ast.Div, ast.Sub, ast.Add, ast.Mult, ast.FloorDiv, ast.Mod)):
+            pairs = [(n.left, n.right), (n.right, n.left)]
+        elif isinstance(n, ast.AugAssign) and isinstance(n.op, (ast.Div, ast.Sub, ast.Add, ast.Mult, ast.FloorDiv, ast.Mod)):
+            pairs = [(n.target, n.value)]
+        for whole, part in pairs:
+            if isinstance(part, ast.Subscript) and isinstance(part.slice, ast.Tuple) and len(part.slice.elts) == 2 \
+                    and isinstance(part.slice.elts[0], ast.Slice) and part.slice.elts[0].lower is None and part.slice.elts[0].upper is None \
+                    and part.slice.elts[0].step is None and not isinstance(part.slice.elts[1], (ast.Slice, ast.Tuple, ast.List)) \
+                    and not (isinstance(part.slice.elts[1], ast.Constant) and part.slice.elts[1].value is None) \
+                    and isinstance(whole, (ast.Name, ast.Attribute)) and ast.dump(part.value) == ast.dump(whole).replace("ctx=Store()", "ctx=Load()"):
+                hits.append(n)
+                break
+    return hits
+
+
+def rule_own_column_broadcast(prog: Program, col: Collector) -> None:
+    files = scope_files(prog, col.property_id)
+    col.rule("BC", "arithmetic between a two-dimensional array and one of its own columns adds the axis back (X / X[:, j, None] or keepdims), never X / X[:, j]", 0)
+    control = ast.parse("def f(a):\n    a /= a[:, -1]\n    b = a - a[:, 0]\n    c = a / a[:, -1, None]\n    return a / a[:, [-1]]\n")
+    if len(_own_column_ops(control)) != 2:
+        raise AnalysisError("BC positive control failed")
+    n = 0
+    for ref in prog.all_functions():
+        if ref.module.rel() not in files:
+            continue
+        for hit in _own_column_ops(ref.node):
+            n += 1
+            col.check(False, ref.where(hit), ref.short, f"`{src(hit)[:70]}` combines an array with its own column along the LAST axis",
+                      construct="own-column-broadcast",
+                      necessity="NumPy aligns trailing axes: (k, m) op (k,) raises for k != m and k != 1 (and silently normalises columns by the wrong rows when k == m); "
+                                "row-wise normalisation needs X[:, j, None] - the registry entries that reach this line with more than one row fail on every call")
+    if n == 0:
+        col.ok("-", "anchor files", "no arithmetic between an array and its own column without a new axis (positive control matched)")
+
+
+LIST_MUTATORS = {"append", "extend", "insert", "remove", "pop", "clear", "sort", "reverse", "update", "add", "discard", "setdefault", "popitem"}
+
+
+def _is_listlike(t) -> bool:
+    return isinstance(t, tuple) and (t[0] in ("list", "tuple", "set", "dict") or (t[0] == "comp" and t[1] in ("list", "set", "dict"))
+                                     or is_call_to(t, "list", "sorted", "tuple", "set", "dict"))
+
+
+def rule_observer_alias_mutation(prog: Program, col: Collector) -> None:
+    """A getter must not change the object it reads - not even through a local alias of one of its containers."""
+    files = scope_files(prog, col.property_id)
+    col.rule("AL", "an observer (get_* / is_* / are_* / has_* method or property) never extends or edits a container attribute of its object or arguments in place, "
+                   "also not through a local alias (`known = self.k_zero; known += [...]`)", 0)
+    n = 0
+    for ref in prog.all_functions():
+        if ref.module.rel() not in files or ref.cls is None:
+            continue
+        nm = ref.node.name
+        is_prop = any((isinstance(d, ast.Name) and d.id in ("property", "cached_property")) or (isinstance(d, ast.Attribute) and d.attr in ("cached_property",))
+                      for d in ref.node.decorator_list)
+        if not (nm.startswith(("get_", "is_", "are_", "has_")) or is_prop):
+            continue
+        n += 1
+        ft = fterms(prog, ref)
+        params = {("param", p) for p in ref.params()}
+
+        def rooted_attr(t) -> bool:
+            seen_attr = False
+            while isinstance(t, tuple) and t[0] == "attr":
+                seen_attr = True
+                t = t[1]
+            return seen_attr and t in params
+        hits = []
+        for e in ft.of_kind("aug"):
+            if e.op == "+" and rooted_attr(e.target) and _is_listlike(e.value):
+                hits.append((e, f"`{src(e.node)[:60]}` extends {short(e.target, 40)} in place"))
+        for e in ft.calls():
+            if e.name in LIST_MUTATORS and e.recv is not None and rooted_attr(e.recv) and not (e.recv[0] == "attr" and e.recv[2].startswith("_cache")):
+                hits.append((e, f"`{src(e.node)[:60]}` edits {short(e.recv, 40)} in place"))
+        for e, msg in hits:
+            col.check(False, ref.where(e.node), ref.short, msg, construct=f"observer-alias-mutation:{nm}",
+                      necessity="a list attribute extended inside a getter keeps growing with every query: the answer to the next query depends on which queries came before "
+                                "(`x = self.items; x += more` extends self.items; `x = x + more` or `self.items + more` would not)")
+        if not hits:
+            col.ok(ref.where(), ref.short, f"observer {nm}: no in-place edit of a container attribute (aliases followed)")
+    if n == 0:
+        col.ok("-", "anchor files", "no observer methods in the anchor files")
+
+
+VIEW_PRESERVING = ("numpy.ascontiguousarray", "numpy.asarray", "numpy.asanyarray", "numpy.atleast_1d", "numpy.atleast_2d", "numpy.ravel", "numpy.reshape",
+                   "numpy.squeeze", "numpy.transpose", "numpy.asfarray")
+
+
+# one named function, one reason: the write through the getter's view IS the function's documented effect
+AR_BY_DESIGN = {"normalize._normalize_icg": "normalisation rescales the bound columns of the game it is given in place, through the views its bound getters return "
+                                            "(checked by M1-M6; the game is the function's output)"}
+
+
+def rule_getter_result_mutated(prog: Program, col: Collector) -> None:
+    """What a getter of an ARGUMENT returned is not modified in place (it may be the argument's own storage)."""
+    files = scope_files(prog, col.property_id)
+    col.rule("AR", "an array returned by a getter of an argument (game.get_values(), ...) is never modified in place - also not through reshape / ravel / "
+                   "ascontiguousarray / slices, which return views whenever they can", 0)
+    n = 0
+    for ref in prog.all_functions():
+        if ref.module.rel() not in files:
+            continue
+        if ref.short in AR_BY_DESIGN:
+            col.assume(f"AR exception {ref.short}: {AR_BY_DESIGN[ref.short]}")
+            continue
+        ft = fterms(prog, ref)
+        params = {("param", p) for p in ref.params() if p != "self"}
+        if not params:
+            continue
+
+        def root(t):
+            """The getter call an array term is (possibly) a view of; None if it is certainly fresh or not from a getter."""
+            for _ in range(12):
+                if not isinstance(t, tuple):
+                    return None
+                if t[0] == "index":
+                    if t[2][0] not in ("slice", "tuple", "const"):
+                        return None                      # fancy / mask indexing copies
+                    if t[2][0] == "tuple" and not all(isinstance(x, tuple) and x[0] in ("slice", "const") for x in t[2][1]):
+                        return None
+                    t = t[1]
+                elif t[0] == "attr" and t[2] in ("T", "real", "flat"):
+                    t = t[1]
+                elif t[0] == "call" and t[1][0] == "attr" and t[1][2] in ("reshape", "ravel", "view", "squeeze", "transpose", "swapaxes"):
+                    t = t[1][1]
+                elif is_call_to(t, *VIEW_PRESERVING) and t[2]:
+                    t = t[2][0]
+                elif t[0] == "call" and t[1][0] == "attr" and t[1][2].startswith("get_") and t[1][2].endswith("s") and t[1][1] in params:
+                    return t            # plural getters return arrays; a scalar from get_value() is rebound by `x *= c`, not modified
+                else:
+                    return None
+            return None
+        for e in list(ft.of_kind("aug")) + [x for x in ft.of_kind("store") if x.index is not None]:
+            tgt = e.target if e.kind == "aug" else e.obj
+            g = root(tgt)
+            if g is not None:
+                n += 1
+                col.check(False, ref.where(e.node), ref.short,
+                          f"`{src(e.node)[:60]}` writes into {short(tgt, 50)}, which can be a view of what {short(g, 40)} returned",
+                          construct="getter-result-mutated",
+                          necessity="reshape, ravel, slices and np.ascontiguousarray return the very storage whenever they can: for a game whose get_values() hands out its own "
+                                    "(contiguous) vector the in-place update overwrites the game, so every later computation on it - the next player's Shapley value - is wrong")
+    if n == 0:
+        col.ok("-", "anchor files", "no in-place write into (a view of) an array returned by a getter of an argument")
